@@ -21,7 +21,7 @@ import (
 func init() {
 	ev.Register(&ev.Spec{
 		ID: "C05", Level: "exploration",
-		Rule:    "lifecycle monitor of the instrumented backend (per handle: Close count, calls begun after Close began, Close begun during a call) + return of Server.Handle + goroutine-leak check + path-tree reference count (verif hook), over: (1) PRNG request sequences ending by disconnect; (2) cut points: the byte stream of scripted sessions replayed truncated at every frame boundary +-1 and every 7th offset (thorough: every offset) followed by EOF; (3) 1-8 requests parked inside the backend when the connection is cut, gates released in every order (k<=4) or PRNG order: every handler exit must precede every teardown Close and the return of Handle (logical clock); (4) a clunk racing a parked operation on the same fid; (5) a connection ending while another connection is parked in RenameAt / Renamed / UnlinkAt / Close for entries the dying connection holds (same-directory and cross-directory renames); (7) bursts on one fid number: thousands of [bind fid 1, use it, unbind it by Tclunk / Tremove / a walk onto it, use it twice more] sent in a few large writes with no pause, lifecycle monitors on (the windows before any backend call: fid table, reference counts). (8) a Tremove queued behind a rename of its own entry that is parked in RenameAt (through another fid of the directory, same or other connection, same or other target directory, or Trename), the directory fid the entry was walked from already clunked. Non-trivial: >= 2 handles handed out and >= 1 bound fid or in-flight request at the end; distinct by event-order signature.",
+		Rule:    "lifecycle monitor of the instrumented backend (per handle: Close count, calls begun after Close began, Close begun during a call) + return of Server.Handle + goroutine-leak check + path-tree reference count (verif hook), over: (1) PRNG request sequences ending by disconnect; (2) cut points: the byte stream of scripted sessions replayed truncated at every frame boundary +-1 and every 7th offset (thorough: every offset) followed by EOF; (3) 1-8 requests parked inside the backend when the connection is cut, gates released in every order (k<=4) or PRNG order: every handler exit must precede every teardown Close and the return of Handle (logical clock); (4) a clunk racing a parked operation on the same fid; (5) a connection ending while another connection is parked in RenameAt / Renamed / UnlinkAt / Close for entries the dying connection holds (same-directory and cross-directory renames); (7) bursts on one fid number: thousands of [bind fid 1, use it, unbind it by Tclunk / Tremove / a walk onto it, use it twice more] sent in a few large writes with no pause, lifecycle monitors on (the windows before any backend call: fid table, reference counts). (8) a Tremove queued behind a rename of its own entry that is parked in RenameAt (through another fid of the directory, same or other connection, same or other target directory, or Trename), the directory fid the entry was walked from already clunked. (9) requests whose backend GetAttr succeeds without reporting the mode (attach, named attach, walk, walkgetattr): refused, and the File obtained for them closed like any other. Non-trivial: >= 2 handles handed out and >= 1 bound fid or in-flight request at the end; distinct by event-order signature.",
 		Assume:  []string{"memfs counters are updated under the backend's own event lock", "hangs decided by process quiescence"},
 		Shards:  shards(8, 16),
 		Timeout: timeout(8*time.Minute, 60*time.Minute),
